@@ -1,4 +1,12 @@
-(* C10 — property theorems only. *)
+(* C10 — property theorems only.  Each is closed by `exact <lemma>` (or by computation for the
+   examples) and followed by Print Assumptions.
+   Reading guide: `workload_dispatch c names` / `host_dispatch c names dflt m` are the models of
+   WorkloadDispatchChains(+DispatchMappings) / hostDispatchChains for renderer configuration c
+   (cf_nft c = nftables renderer with verdict maps, otherwise the iptables prefix tree);
+   `eval wc rs pk (CRoot k)` runs packet pk through dispatch chain k of rule set rs in the abstract
+   netfilter machine whose wildcard byte is wc; `pkt_if (kind_dir k) pk` is the interface that
+   chain looks at (incoming for "from" chains, outgoing for "to" chains);
+   `names_ok wc names` says every name is non-empty and does not end in the wildcard byte. *)
 From Coq Require Import List NArith Bool Arith.
 From Verif.C10 Require Import Nf Model Spec Proofs.
 Import ListNotations.
@@ -9,3 +17,118 @@ Theorem c10_wildcard_pattern_is_prefix_match : forall wc p i,
   pat_matches wc (p ++ [wc]) i = is_prefix p i.
 Proof. exact pat_wild. Qed.
 Print Assumptions c10_wildcard_pattern_is_prefix_match.
+
+(* For ANY list of names (duplicates, shared prefixes, names that are prefixes of others, ...) and
+   ANY packet: workload dispatch hands the packet to an endpoint chain (k', n) iff that is the chain
+   of the dispatch chain's own kind for the packet's interface and that interface is in the set.
+   Holds for both renderers. *)
+Theorem c10_known_iface_own_chain : forall c names rs,
+  names_ok (sem_wildcard (cf_nft c)) names = true ->
+  workload_dispatch c names = Some rs ->
+  forall pk k, is_wl_kind k = true -> forall k' n,
+    eval (sem_wildcard (cf_nft c)) rs pk (CRoot k) = REndpoint k' n <->
+    (k' = k /\ n = pkt_if (kind_dir k) pk /\ In n names).
+Proof. exact known_iface_own_chain. Qed.
+Print Assumptions c10_known_iface_own_chain.
+
+(* Fail closed: a packet whose interface is not in the set (in particular one that merely matches a
+   workload interface prefix) meets the configured deny action, whatever else is in the set. *)
+Theorem c10_unknown_dropped : forall c names rs,
+  names_ok (sem_wildcard (cf_nft c)) names = true ->
+  workload_dispatch c names = Some rs ->
+  forall pk k, is_wl_kind k = true -> ~ In (pkt_if (kind_dir k) pk) names ->
+    eval (sem_wildcard (cf_nft c)) rs pk (CRoot k) = deny_result (cf_reject c).
+Proof. exact unknown_dropped. Qed.
+Print Assumptions c10_unknown_dropped.
+
+(* Host dispatch, full characterisation (HostDispatchChains / FromHostDispatchChains /
+   ToHostDispatchChains): the verdict is exactly Spec.spec_host. *)
+Theorem c10_host_dispatch_spec : forall c names dflt m rs,
+  names_ok (sem_wildcard (cf_nft c)) names = true ->
+  host_dispatch c names dflt m = Some rs ->
+  forall pk k, In k (roots (CHost dflt m)) ->
+    eval (sem_wildcard (cf_nft c)) rs pk (CRoot k) =
+    spec_host k names dflt (match k with KHostTo => negb (mode_aof m) | _ => false end)
+              (cf_wlpfx c) (pkt_if (kind_dir k) pk).
+Proof. exact host_dispatch_spec. Qed.
+Print Assumptions c10_host_dispatch_spec.
+
+(* The only endpoint chains host dispatch can reach are the interface's own chain (known interface)
+   or the default chain, and the latter only when a default (wildcard HEP) is configured. *)
+Theorem c10_host_default_only_when_configured : forall c names dflt m rs,
+  names_ok (sem_wildcard (cf_nft c)) names = true ->
+  host_dispatch c names dflt m = Some rs ->
+  forall pk k, In k (roots (CHost dflt m)) -> forall k' n,
+    eval (sem_wildcard (cf_nft c)) rs pk (CRoot k) = REndpoint k' n ->
+    k' = k /\ ((n = pkt_if (kind_dir k) pk /\ In n names)
+               \/ (n = dflt /\ dflt <> [] /\ ~ In (pkt_if (kind_dir k) pk) names)).
+Proof. exact host_default_only_when_configured. Qed.
+Print Assumptions c10_host_default_only_when_configured.
+
+Theorem c10_host_no_default_returns : forall c names m rs,
+  names_ok (sem_wildcard (cf_nft c)) names = true ->
+  host_dispatch c names [] m = Some rs ->
+  forall pk k, In k (roots (CHost [] m)) -> ~ In (pkt_if (kind_dir k) pk) names ->
+    eval (sem_wildcard (cf_nft c)) rs pk (CRoot k) = RReturn.
+Proof. exact host_no_default_returns. Qed.
+Print Assumptions c10_host_no_default_returns.
+
+(* The nftables verdict-map variant and the iptables prefix-tree variant give the same verdict
+   for every packet. *)
+Theorem c10_vmap_same : forall cn ci names rsn rsi,
+  cf_nft cn = true -> cf_nft ci = false -> cf_reject cn = cf_reject ci ->
+  names_ok 42 names = true -> names_ok 43 names = true ->
+  workload_dispatch cn names = Some rsn -> workload_dispatch ci names = Some rsi ->
+  forall pk k, is_wl_kind k = true ->
+    eval 42 rsn pk (CRoot k) = eval 43 rsi pk (CRoot k).
+Proof. exact vmap_same. Qed.
+Print Assumptions c10_vmap_same.
+
+(* The specification oracle used on the implementation's output accepts every run of the model
+   (any configuration, any names incl. out-of-domain ones, any probes). *)
+Theorem c10_model_meets_spec : forall c, c_impl c = model_of c -> ok_case c = true.
+Proof. exact model_meets_spec. Qed.
+Print Assumptions c10_model_meets_spec.
+
+(* The model panics (as the Go code does) only on an empty interface name. *)
+Theorem c10_panic_only_on_empty_name : forall names,
+  divide names = None -> existsb is_empty names = true.
+Proof. exact divide_none_empty. Qed.
+Print Assumptions c10_panic_only_on_empty_name.
+
+(* ---- the hypotheses are satisfiable by a non-trivial set: cali, cali1, cali12, cali2, cali1 (dup) ---- *)
+Definition ex_names : list name :=
+  [[99;97;108;105;49]; [99;97;108;105]; [99;97;108;105;49;50]; [99;97;108;105;50]; [99;97;108;105;49]].
+Definition ex_cfg (nft : bool) : cfg := {| cf_nft := nft; cf_reject := false; cf_wlpfx := [[99;97;108;105]] |}.
+Definition ex_pk (i : name) : packet := {| p_in := i; p_out := [122] |}.
+
+Example c10_example_tree :
+  names_ok 43 ex_names = true /\ names_ok 42 ex_names = true /\
+  match workload_dispatch (ex_cfg false) ex_names with
+  | Some rs => length (rs_chains rs) = 4%nat  (* a child chain "-1" for cali1/cali12 in each direction *)
+               /\ eval 43 rs (ex_pk [99;97;108;105;49;50]) (CRoot KWlFrom) = REndpoint KWlFrom [99;97;108;105;49;50]
+               /\ eval 43 rs (ex_pk [99;97;108;105;49;51]) (CRoot KWlFrom) = RDrop
+               /\ eval 43 rs (ex_pk [99;97;108]) (CRoot KWlFrom) = RDrop
+  | None => False
+  end.
+Proof. vm_compute. repeat split; reflexivity. Qed.
+
+Example c10_example_host :
+  match host_dispatch (ex_cfg false) ex_names [42] (HBoth false) with
+  | Some rs => eval 43 rs {| p_in := [122]; p_out := [101;116;104;48] |} (CRoot KHostTo) = REndpoint KHostTo [42]
+               /\ eval 43 rs {| p_in := [122]; p_out := [99;97;108;105;57] |} (CRoot KHostTo) = RReturn
+  | None => False
+  end.
+Proof. vm_compute. split; reflexivity. Qed.
+
+(* Domain boundary: the restriction "no name ends in the wildcard byte" is necessary.  With the single
+   name "a+" the iptables rule "--in-interface a+" also captures interface "ab".  (Such names cannot
+   reach Felix: the v3 validator only admits [a-zA-Z0-9_.-]{1,15}.) *)
+Theorem c10_trailing_wildcard_refuted :
+  exists names rs pk, workload_dispatch (ex_cfg false) names = Some rs /\
+    ~ In (p_in pk) names /\ eval 43 rs pk (CRoot KWlFrom) = REndpoint KWlFrom [97;43].
+Proof.
+  exists [[97;43]]. eexists. exists (ex_pk [97;98]). split; [vm_compute; reflexivity|].
+  split; [|vm_compute; reflexivity]. simpl. intros [H|[]]. discriminate.
+Qed.
+Print Assumptions c10_trailing_wildcard_refuted.
